@@ -44,7 +44,9 @@ FIXED = {
                        "1/2+sqrt(3)*I/2;-1"],
     "quadratic": ["sqrt(2);2", "sqrt(2);sqrt(8)", "1+sqrt(2);1-sqrt(2)", "3+2*sqrt(2);1+sqrt(2)", "2+sqrt(3);2-sqrt(3)",
                   "sqrt(2);-sqrt(2)", "sqrt(2);1/sqrt(2)", "sqrt(3);3;9", "1+sqrt(2);3-2*sqrt(2)", "sqrt(2);sqrt(3);sqrt(6)",
-                  "sqrt(-2);2", "1+I;2"],
+                  "sqrt(-2);2", "1+I;2",
+                  # relations far outside any enumeration box (bases of very different size)
+                  "sqrt(2);2**100", "1+I;2**100", "sqrt(2);2**90;3", "sqrt(3);3**64"],
     "golden": ["(1+sqrt(5))/2;(1-sqrt(5))/2", "(1+sqrt(5))/2;(1-sqrt(5))/2;-1", "(3+sqrt(5))/2;(1+sqrt(5))/2",
                "(1+sqrt(5))/2;(sqrt(5)-1)/2", "(1+sqrt(5))/2;2"],
 }
@@ -274,6 +276,44 @@ def bounded_missing_relation(inst, bound):
     return None, n
 
 
+def power_lattice_missing_relation(inst):
+    """irrational bases some power (2, 4, 6, 8, 12) of each of which is rational: every relation of the bases is a relation
+    of those powers, so the exact rational lattice L of the powers (independent algorithm lattice_cert.true_rational_lattice)
+    supplies candidates m*u (u in a basis of L, m | 24) of ANY size; a candidate that is an exact relation of the bases
+    but not in the integer span of the returned rows is a missing relation.  -> (e, number tested) or (None, n)"""
+    import sympy as sp
+    pw = None
+    for m in (2, 4, 6, 8, 12):
+        try:
+            sq = [sp.nsimplify(sp.expand(sp.sympify(b) ** m), rational=True) for b in inst["polar"]]
+        except Exception:
+            return None, 0
+        if all(x.is_Rational and x != 0 for x in sq):
+            pw = (m, [Fraction(int(x.p), int(x.q)) for x in sq])
+            break
+    if pw is None:
+        return None, 0
+    try:
+        L = lc.true_rational_lattice(pw[1])[0]
+    except Exception:
+        return None, 0
+    n = 0
+    for u in L:
+        for mult in (1, 2, 3, 4, 6, 8, 12, 24):
+            e = [mult * int(x) for x in u]
+            if max(abs(x) for x in e) > 10 ** 6:
+                continue
+            n += 1
+            try:
+                if exact_product_is_one(inst, e):
+                    if lc.in_span_Z(inst["B"], e) is None:
+                        return e, n
+                    break
+            except (ValueError, OverflowError, MemoryError):
+                break
+    return None, n
+
+
 def search_violation(inst):
     """-> (kind, witness dict) using oracles independent of Polar, or None"""
     B = inst["B"]
@@ -422,6 +462,9 @@ def run(ctx):
             bound = {1: 8, 2: 6, 3: 4, 4: 3}.get(k, 2)
             e, n = bounded_missing_relation(inst, bound)
             ctx.coverage["bounded_enumeration_vectors"] = ctx.coverage.get("bounded_enumeration_vectors", 0) + n
+            if e is None:
+                e, n2 = power_lattice_missing_relation(inst)
+                ctx.coverage["power_lattice_candidates"] = ctx.coverage.get("power_lattice_candidates", 0) + n2
             if e is None:
                 stat["sound+independent (completeness tested)"] = stat.get("sound+independent (completeness tested)", 0) + 1
                 ctx.coverage["discharged"] += 1
